@@ -53,7 +53,7 @@ def stack(b: Builder, npre: int, npost: int, nsnap: int, foreign_at: Sequence[in
     for _ in range(npre):
         decos.append({"d": "require", "c": b.new("pre")})
     for pos in sorted(foreign_at, reverse=True):
-        decos.insert(min(pos, len(decos)), {"d": "foreign" if pos % 2 == 0 else "foreign_bare", "c": 0})
+        decos.insert(min(pos, len(decos)), {"d": "foreign", "c": 0})
     return decos
 
 
@@ -422,7 +422,18 @@ def fam_foreign_hier(tier: str, rng: random.Random) -> Iterator[dict]:
                 for pos in ((99,), (0,), (1,), (0, 99)):
                     foreign = [()] * n
                     foreign[top] = pos
-                    yield make_hist(shape, mopts, [[]] * n, kind="fn", foreign=foreign, tag="foreign-" + shape)
+                    h = make_hist(shape, mopts, [[]] * n, kind="fn", foreign=foreign, tag="foreign-" + shape)
+                    yield h
+                    # the same with a foreign decorator that copies no attribute of what it wraps (wraps(f, updated=()))
+                    import json as _json
+                    q = _json.loads(_json.dumps(h))
+                    for st in q["cls"]:
+                        for m in st["members"]:
+                            for d in m["decos"]:
+                                if d["d"] == "foreign":
+                                    d["d"] = "foreign_bare"
+                    q["tag"] = h["tag"] + "-bare"
+                    yield q
 
 
 def fam_modules(tier: str, rng: random.Random) -> Iterator[dict]:
